@@ -334,9 +334,16 @@ impl TurnClient {
                 socket.send_to(data, *server).await?;
             }
             TurnTransport::Tcp { write, .. } => {
-                let mut frame = Vec::with_capacity(2 + data.len());
-                frame.extend_from_slice(&(data.len() as u16).to_be_bytes());
+                // RFC 5766 § 2.1 / RFC 5389 § 7.2.2: on a stream transport STUN messages are
+                // self-framing (header length field) and follow each other directly; only
+                // ChannelData is padded to a multiple of four bytes (RFC 5766 § 11.5).
+                let mut frame = Vec::with_capacity(data.len() + 3);
                 frame.extend_from_slice(data);
+                if data.first().is_some_and(|b| b & 0xC0 == 0x40) {
+                    while frame.len() % 4 != 0 {
+                        frame.push(0);
+                    }
+                }
                 write.lock().await.write_all(&frame).await?;
             }
         }
@@ -363,18 +370,23 @@ impl TurnClient {
                 Ok(len)
             }
             TurnTransport::Tcp { read, .. } => {
-                let mut header = [0u8; 2];
+                // Both STUN messages and ChannelData start with 2 bytes of type/channel
+                // followed by a 16-bit length of what comes after the 20-byte STUN header or
+                // the 4-byte ChannelData header; ChannelData is padded to 4 on streams.
+                let mut header = [0u8; 4];
                 let mut stream = read.lock().await;
                 stream.read_exact(&mut header).await?;
-                let len = u16::from_be_bytes(header) as usize;
-                let mut offset = 0;
-                while offset < len {
-                    let read = stream.read(&mut buf[offset..len]).await?;
-                    if read == 0 {
-                        bail!("TURN TCP stream closed");
-                    }
-                    offset += read;
+                let body = u16::from_be_bytes([header[2], header[3]]) as usize;
+                let (len, padded) = if header[0] & 0xC0 == 0 {
+                    (20 + body, 20 + body)
+                } else {
+                    (4 + body, (4 + body + 3) & !3)
+                };
+                if padded > buf.len() {
+                    bail!("TURN TCP message too large: {} > {}", padded, buf.len());
                 }
+                buf[..4].copy_from_slice(&header);
+                stream.read_exact(&mut buf[4..padded]).await?;
                 Ok(len)
             }
         }
